@@ -19,8 +19,18 @@ func init() {
 // other (only) from b.f, for two different struct roots a and b.
 func comparedFields(w *World, pr *prover, fns []*ssa.Function) map[string]string {
 	out := map[string]string{}
-	note := func(ops []ssa.Value, how string, pos ssa.Instruction) {
+	var note func(ops []ssa.Value, how string, pos ssa.Instruction)
+	note = func(ops []ssa.Value, how string, pos ssa.Instruction) {
 		if len(ops) < 2 {
+			return
+		}
+		// the two operands are the two columns of a row of a local literal table of pairs, walked by a loop
+		// (props := [...][2]Item{{o.A, w.A}, {o.B, w.B}}; for _, p := range props { ItemsEqual(p[0], p[1]) }): one
+		// comparison per row
+		if rows, ok := pairTableRows(ops[0], ops[1]); ok {
+			for _, r := range rows {
+				note([]ssa.Value{r[0], r[1]}, how+" (table row)", pos)
+			}
 			return
 		}
 		type side struct {
@@ -764,10 +774,10 @@ func checkC19(w *World, c *Check, tier string) {
 		var valCall *ssa.Call
 		for _, b := range lrvEq.Blocks {
 			for _, in := range b.Instrs {
-				if bo, ok := in.(*ssa.BinOp); ok && bo.Op == token.EQL && isStringish(bo.X.Type()) {
+				if bo, ok := in.(*ssa.BinOp); ok && (bo.Op == token.EQL || bo.Op == token.NEQ) && isStringish(bo.X.Type()) {
 					refCmp = bo
 				}
-				if call, ok := in.(*ssa.Call); ok && calleeNamed(call, "Equals") {
+				if call, ok := in.(*ssa.Call); ok && (calleeNamed(call, "Equals") || calleeNamed(call, "Equal") || calleeNamed(call, "EqualFold")) {
 					valCall = call
 				}
 			}
@@ -778,7 +788,11 @@ func checkC19(w *World, c *Check, tier string) {
 				continue
 			}
 			ip := newInterp(w)
-			ip.overrides[ov] = avBool(false)
+			differs := false
+			if bo, isBo := ov.(*ssa.BinOp); isBo && bo.Op == token.NEQ {
+				differs = true // `a != b` is true when the two differ
+			}
+			ip.overrides[ov] = avBool(differs)
 			res, _, _ := ip.Call(lrvEq, []AV{avTop, avTop}, nil, Store{}, nil)
 			if b, ok := res.isConstBool(); ok && !b {
 				c.ok("C19.eq", "conjunction:"+label, w.FuncPos(lrvEq), "false when this comparison fails")
@@ -1273,7 +1287,18 @@ func comparesFirstTwoParams(f *ssa.Function) bool {
 	if f.Blocks == nil || len(f.Params) < 2 {
 		return false
 	}
-	isP := func(v ssa.Value, i int) bool { return unwrap(v) == ssa.Value(f.Params[i]) }
+	isP := func(v ssa.Value, i int) bool {
+		v = unwrap(v)
+		// ours.GetLink() / theirs.GetID(): a getter called on the parameter stands for the parameter
+		for d := 0; d < 3; d++ {
+			if call, ok := v.(*ssa.Call); ok && call.Common().IsInvoke() && len(call.Common().Args) == 0 {
+				v = unwrap(call.Common().Value)
+				continue
+			}
+			break
+		}
+		return v == ssa.Value(f.Params[i])
+	}
 	res := false
 	for _, b := range f.Blocks {
 		for _, in := range b.Instrs {
@@ -1448,4 +1473,122 @@ func isNilGuardedStrict(v ssa.Value, b *ssa.BasicBlock) bool {
 		}
 	}
 	return false
+}
+
+// pairTableRows: a and b are two different columns (constant indices) of one element of a local literal array of
+// arrays, the element being the loop variable of a range over that array. Returns, per row, the values stored into
+// those two columns.
+func pairTableRows(a, b ssa.Value) ([][2]ssa.Value, bool) {
+	col := func(v ssa.Value) (*ssa.Alloc, int64, bool) {
+		ld, ok := unwrap(v).(*ssa.UnOp)
+		if !ok || ld.Op != token.MUL {
+			return nil, 0, false
+		}
+		ia, ok := ld.X.(*ssa.IndexAddr)
+		if !ok {
+			return nil, 0, false
+		}
+		k, ok := ia.Index.(*ssa.Const)
+		if !ok || k.Value == nil {
+			return nil, 0, false
+		}
+		al, ok := ia.X.(*ssa.Alloc)
+		if !ok {
+			return nil, 0, false
+		}
+		return al, k.Int64(), true
+	}
+	la, ka, ok1 := col(a)
+	lb, kb, ok2 := col(b)
+	if !ok1 || !ok2 || la != lb || ka == kb {
+		return nil, false
+	}
+	sts := storesTo(la)
+	if len(sts) != 1 {
+		return nil, false
+	}
+	// the loop variable receives table[i]
+	var table *ssa.Alloc
+	switch x := sts[0].Val.(type) {
+	case *ssa.Index:
+		if ld, ok := x.X.(*ssa.UnOp); ok && ld.Op == token.MUL {
+			table, _ = ld.X.(*ssa.Alloc)
+		}
+	case *ssa.UnOp:
+		if ia, ok := x.X.(*ssa.IndexAddr); ok && x.Op == token.MUL {
+			switch y := ia.X.(type) {
+			case *ssa.Alloc:
+				table = y
+			case *ssa.Slice:
+				table, _ = y.X.(*ssa.Alloc)
+			}
+		}
+	}
+	if table == nil {
+		return nil, false
+	}
+	at, ok := types.Unalias(table.Type().(*types.Pointer).Elem()).Underlying().(*types.Array)
+	if !ok {
+		return nil, false
+	}
+	rows := make([][2]ssa.Value, at.Len())
+	fill := func(j int64, rowAddr ssa.Value) {
+		// stores into rowAddr[k]
+		if rowAddr.Referrers() == nil {
+			return
+		}
+		for _, r := range *rowAddr.Referrers() {
+			ia, ok := r.(*ssa.IndexAddr)
+			if !ok {
+				continue
+			}
+			k, ok := ia.Index.(*ssa.Const)
+			if !ok || k.Value == nil || ia.Referrers() == nil {
+				continue
+			}
+			for _, rr := range *ia.Referrers() {
+				if st, ok := rr.(*ssa.Store); ok && st.Addr == ssa.Value(ia) && j < int64(len(rows)) {
+					if k.Int64() == ka {
+						rows[j][0] = st.Val
+					} else if k.Int64() == kb {
+						rows[j][1] = st.Val
+					}
+				}
+			}
+		}
+	}
+	if table.Referrers() == nil {
+		return nil, false
+	}
+	for _, r := range *table.Referrers() {
+		ia, ok := r.(*ssa.IndexAddr)
+		if !ok {
+			continue
+		}
+		jc, ok := ia.Index.(*ssa.Const)
+		if !ok || jc.Value == nil {
+			continue
+		}
+		j := jc.Int64()
+		fill(j, ia) // &table[j][k] = v
+		if ia.Referrers() == nil {
+			continue
+		}
+		for _, rr := range *ia.Referrers() {
+			// *(&table[j]) = *rowLiteral
+			if st, ok := rr.(*ssa.Store); ok && st.Addr == ssa.Value(ia) {
+				if ld, ok := st.Val.(*ssa.UnOp); ok && ld.Op == token.MUL {
+					if rl, ok := ld.X.(*ssa.Alloc); ok {
+						fill(j, rl)
+					}
+				}
+			}
+		}
+	}
+	for _, r := range rows {
+		if r[0] == nil || r[1] == nil {
+			return nil, false
+		}
+	}
+	return rows, len(rows) > 0
 }
